@@ -15,7 +15,7 @@ for id in $IDS; do
     demo="$d/demo_test.go"; [ -f "$demo" ] || demo=$(ls "$d"/*_test.go 2>/dev/null | head -1)
     [ -n "$demo" ] || { echo "$id-$n: no demo test file" >&2; continue; }
     pkg=$(grep -m1 '^package ' "$demo" | awk '{print $2}')
-    case "$pkg" in http|http_test) dir=http ;; coraza|coraza_test) dir=. ;; *) dir=$(grep -m1 -o 'internal/[a-z/]*' "$demo" | head -1); [ -z "$dir" ] && dir=. ;; esac
+    case "$pkg" in http|http_test) dir=http ;; coraza|coraza_test) dir=. ;; *) dir=$(cd /repo && grep -rl --include='*.go' "^package ${pkg%_test}\$" internal experimental 2>/dev/null | head -1 | xargs -r dirname); [ -z "$dir" ] && dir=. ;; esac
     pat="^($(grep -o '^func Test[A-Za-z0-9_]*' "$demo" | sed 's/^func //' | paste -sd'|'))\$"
     echo "$id $n $out $dir $pat" >> "$jobs_file"
   done
